@@ -361,6 +361,8 @@ func (p *sparser) args() ([]SExpr, []string) {
 // Contracts
 
 type Clause struct {
+	CutTags []string // per cut: "" (always), "entry" or "keep"
+	Cuts  []SExpr // "by" lemmas: proved first, then assumed for this clause only
 	Label string
 	E     SExpr
 	Src   string
@@ -368,6 +370,7 @@ type Clause struct {
 }
 
 type LoopSpec struct {
+	ExitInv    []Clause // hold at exits from the middle of the body (proved there, then assumed)
 	Invariants []Clause
 	Decreases  []Clause
 }
@@ -405,6 +408,9 @@ type Contract struct {
 	Props    map[string]bool
 	Like     string
 	LikePkg  string
+	ThisAlias bool
+	LikeResults []string
+	InvCuts  map[string][]SExpr // "Type/label" -> cuts used when proving that type invariant clause in this function
 }
 
 type PredDef struct {
@@ -496,12 +502,28 @@ func (db *ContractDB) loadFile(path, pkgPrefix string) {
 			rest = m[2]
 		}
 		c.Src = rest
-		e, err := parseSpecExpr(rest)
+		parts := splitBy(rest)
+		e, err := parseSpecExpr(parts[0])
 		if err != nil {
 			fail(n, "%v", err)
 			return c, false
 		}
 		c.E = e
+		for _, cs := range parts[1:] {
+			tag := ""
+			if strings.HasPrefix(cs, "@entry ") {
+				tag, cs = "entry", strings.TrimSpace(cs[7:])
+			} else if strings.HasPrefix(cs, "@keep ") {
+				tag, cs = "keep", strings.TrimSpace(cs[6:])
+			}
+			ce, err := parseSpecExpr(cs)
+			if err != nil {
+				fail(n, "%v", err)
+				return c, false
+			}
+			c.Cuts = append(c.Cuts, ce)
+			c.CutTags = append(c.CutTags, tag)
+		}
 		return c, true
 	}
 	for _, l := range ls {
@@ -537,7 +559,7 @@ func (db *ContractDB) loadFile(path, pkgPrefix string) {
 				}
 				cur.Props[w] = true
 			}
-			if kind == "extern" || cur.Props["trusted"] {
+			if kind == "extern" || cur.Props["trusted"] || strings.HasPrefix(key, "fieldfunc:") {
 				cur.Trusted = true
 			}
 			if _, dup := db.Funcs[key]; dup {
@@ -719,6 +741,15 @@ func (db *ContractDB) loadFile(path, pkgPrefix string) {
 			if ok {
 				curLoop.Invariants = append(curLoop.Invariants, c)
 			}
+		case strings.HasPrefix(t, "exitinv "):
+			if curLoop == nil {
+				fail(l.n, "exitinv outside loop")
+				continue
+			}
+			c, ok := clause(l.n, strings.TrimSpace(t[8:]))
+			if ok {
+				curLoop.ExitInv = append(curLoop.ExitInv, c)
+			}
 		case strings.HasPrefix(t, "decreases "):
 			if curLoop == nil {
 				fail(l.n, "decreases outside loop")
@@ -727,6 +758,32 @@ func (db *ContractDB) loadFile(path, pkgPrefix string) {
 			c, ok := clause(l.n, strings.TrimSpace(t[10:]))
 			if ok {
 				curLoop.Decreases = append(curLoop.Decreases, c)
+			}
+		case strings.HasPrefix(t, "cut typeinv "):
+			if cur == nil {
+				fail(l.n, "cut outside contract")
+				continue
+			}
+			rest := strings.TrimSpace(t[12:])
+			i := strings.Index(rest, " by ")
+			if i < 0 {
+				fail(l.n, "cut typeinv needs 'by'")
+				continue
+			}
+			key := strings.TrimSpace(rest[:i])
+			if !strings.Contains(strings.SplitN(key, "/", 2)[0], ".") {
+				key = pkgPrefix + "." + key
+			}
+			if cur.InvCuts == nil {
+				cur.InvCuts = map[string][]SExpr{}
+			}
+			for _, cs := range splitBy("x" + rest[i:])[1:] {
+				e, err := parseSpecExpr(cs)
+				if err != nil {
+					fail(l.n, "%v", err)
+					continue
+				}
+				cur.InvCuts[key] = append(cur.InvCuts[key], e)
 			}
 		case strings.HasPrefix(t, "ghost-update "):
 			if cur == nil {
@@ -798,6 +855,13 @@ func splitTop(s string) []string {
 // "NewPacket" -> "tds.NewPacket"; interface "BytesChannel.Bytes" -> "iface:tds.BytesChannel.Bytes".
 // Names containing a '/' or already qualified are left alone.
 func canonFuncKey(name, pkg, kind string) string {
+	if strings.HasPrefix(name, "fieldfunc:") {
+		n := strings.TrimPrefix(name, "fieldfunc:")
+		if strings.Count(n, ".") == 1 {
+			n = pkg + "." + n
+		}
+		return "fieldfunc:" + n
+	}
 	if kind == "iface" {
 		if strings.Count(name, ".") == 1 {
 			name = pkg + "." + name
@@ -870,8 +934,10 @@ func (db *ContractDB) resolveLikes() {
 			db.Errors = append(db.Errors, fmt.Sprintf("%s: like %s: no such contract", c.Where, c.Like))
 			continue
 		}
-		c.ParamsOv = src.ParamsOv
-		c.Results = src.Results
+		// clauses are copied; identifiers are bound by name: "this" to the receiver,
+		// other names to the function's own parameters of the same name
+		c.ThisAlias = true
+		c.LikeResults = src.Results
 		c.Requires = append(append([]Clause{}, src.Requires...), c.Requires...)
 		c.Ensures = append(append([]Clause{}, src.Ensures...), c.Ensures...)
 		c.Modifies = append(append([]ModItem{}, src.Modifies...), c.Modifies...)
@@ -889,4 +955,69 @@ func contractPkgOf(key string) string {
 		return k[:i]
 	}
 	return ""
+}
+
+
+// splitBy splits "expr by cut1 by cut2" at top-level " by " keywords.
+func splitBy(s string) []string {
+	var out []string
+	depth := 0
+	start := 0
+	for i := 0; i < len(s); i++ {
+		switch s[i] {
+		case '(', '[':
+			depth++
+		case ')', ']':
+			depth--
+		}
+		if depth == 0 && strings.HasPrefix(s[i:], " by ") {
+			out = append(out, strings.TrimSpace(s[start:i]))
+			start = i + 4
+			i += 3
+		} else if depth == 0 && strings.HasPrefix(s[i:], " by@") {
+			out = append(out, strings.TrimSpace(s[start:i]))
+			start = i + 3
+			i += 3
+		}
+	}
+	out = append(out, strings.TrimSpace(s[start:]))
+	return out
+}
+
+// cutGoals builds the two proof goals of a clause with cuts:
+// (a) the cuts themselves, (b) cuts ==> clause, both under the clause's quantifier.
+func (c Clause) cutGoals() (SExpr, SExpr) {
+	var conj SExpr
+	for i, cu := range c.Cuts {
+		if i == 0 {
+			conj = cu
+		} else {
+			conj = &SBinary{"&&", conj, cu}
+		}
+	}
+	if q, ok := c.E.(*SQuant); ok && q.Forall {
+		return &SQuant{true, q.Vars, conj}, &SQuant{true, q.Vars, &SBinary{"==>", conj, q.Body}}
+	}
+	return conj, &SBinary{"==>", conj, c.E}
+}
+
+
+// forPhase returns the clause with only the cuts applicable to the phase.
+func (c Clause) forPhase(phase string) Clause {
+	if len(c.Cuts) == 0 {
+		return c
+	}
+	out := c
+	out.Cuts, out.CutTags = nil, nil
+	for i, cu := range c.Cuts {
+		tag := ""
+		if i < len(c.CutTags) {
+			tag = c.CutTags[i]
+		}
+		if tag == "" || tag == phase {
+			out.Cuts = append(out.Cuts, cu)
+			out.CutTags = append(out.CutTags, tag)
+		}
+	}
+	return out
 }
